@@ -458,8 +458,9 @@ def step_case(draw, tier="quick"):
     dtype = draw(S(["float32", "float32", "float64"]))
     dt = draw(S([0.1, 0.5, 1.0, 1.3, 0.25]))
     refrac_t = _refrac(draw, dt, ("int", "frac", "zero", "int", "frac", "int", "frac"))
-    shape = draw(S([[1], [3], [2, 2], [3], [2]]))
-    batch = draw(S([1, 2, 3]))
+    big = tier == "thorough"
+    shape = draw(S([[1], [3], [2, 2], [3], [2]] + ([[4, 3], [2, 3, 2]] if big else [])))
+    batch = draw(S([1, 2, 3] + ([4] if big else [])))
     numel = batch * int(np.prod(shape))
     params = _params(draw, cls)
     adaptive = cls in ADAPT_THRESH + ADAPT_CURRENT
@@ -469,7 +470,7 @@ def step_case(draw, tier="quick"):
     nsteps = draw(st.integers(5, nmax))
     steps = []
     for _ in range(nsteps):
-        el = draw(st.lists(_DRIVE, min_size=1, max_size=min(numel, 4)))
+        el = draw(st.lists(_DRIVE, min_size=1, max_size=min(numel, 6 if big else 4)))
         s = {"el": el,
              "lock": {"T": True, "F": False}.get(lockmode) if lockmode != "mixed" else draw(st.booleans())}
         if adaptive:
